@@ -20,7 +20,7 @@ RULE = ("batches of 1-2 torrents (v1/v2/hybrid, own creators or reference encode
 def run_case(run, drv, case_seed, tier):
     rng = random.Random(case_seed)
     torrents = [rb.gen_torrent(rng, str(i), tier) for i in range(rng.choice([1, 1, 2]))]
-    case = {"case_seed": case_seed, "torrents": torrents}
+    case = {"case_seed": case_seed, "torrents": torrents, "bystander": rng.random() < 0.25}
     rb.METADIR[0] = rng.choice(["metas", "metas", "[2024] metas", "m*e?tas"])
     with sandbox("c13") as box:
         metas = [rb.write_metafile(box, t, i) for i, t in enumerate(torrents)]
@@ -166,6 +166,31 @@ def witness_kf2(run):
     run.case(["witness", "KF-C13-2"], True, classes=["witness"])
 
 
+def witness_kf3(run):
+    """KF-C13-3: more files inside ONE v1 piece than the interpreter's recursion limit allows
+    (PieceNode._find_matches recurses once per file of a piece)."""
+    n = 1100
+    t = {"name": "tmany", "files": [(f"f{i:04d}", f"r{i % 40 + 1}.10") for i in range(n)], "pl": 16384,
+         "version": 1, "single": False, "source": "own"}
+    case = {"witness": "KF-C13-3", "files": n, "bytes_each": 10, "pl": 16384}
+    with sandbox("c13m") as box:
+        metas = [rb.write_metafile(box, t, 0)]
+        s0 = os.path.join(box, "search0")
+        write_tree(s0, [(p, cr.blob_from_token(tok).bytes()) for p, tok in t["files"]])
+        dest = os.path.join(box, "dest")
+        os.makedirs(dest)
+        try:
+            count = impl.rebuild([metas[0][0]], [s0], dest)
+        except RecursionError:
+            # exactly the recorded finding; anything else (another exception, a wrong or
+            # incomplete destination) is judged like every other case
+            run.fail("impl-vs-spec", dict(case, kf_recursion_many_files=True),
+                     {"raised": "RecursionError", "why": "1100 files of 10 bytes share one 16 KiB piece"})
+        else:
+            judge(run, case, [t], metas, dest, count)
+    run.case(["witness", "KF-C13-3"], True, classes=["witness"])
+
+
 def run(tier, seed, replay=None):
     impl.use_repo()
     run = Run("C13", tier, seed, RULE)
@@ -175,6 +200,7 @@ def run(tier, seed, replay=None):
     else:
         guarded(run, {"witness": "KF-C13-1"}, witness_kf1, run)
         guarded(run, {"witness": "KF-C13-2"}, witness_kf2, run)
+        guarded(run, {"witness": "KF-C13-3"}, witness_kf3, run)
         seeds = [] if replay else [run.rng.randrange(10 ** 9) for _ in range(70 if tier == "quick" else 700)]
     for s in seeds:
         guarded(run, {"case_seed": s}, run_case, run, drv, s, tier)
